@@ -1,7 +1,12 @@
 import TwistedModel.Ssh.KeyBlob
 import TwistedProps.C37.Gen
+import TwistedProps.C37.Wire
+import TwistedProps.C37.Priv
+import TwistedProps.C37.Sexpy
+import TwistedProps.C37.Lsh
+import TwistedProps.C37.OpenSSHv1
 /-!
-C37 — SSH wire primitives and public-key blobs round-trip.
+C37 — SSH wire primitives and keys round-trip.
 
 * `getNS_NS`, `getNS_list`: length-prefixed strings decode to exactly what was encoded, for any
   bytes, with any trailing data, any number of strings.
@@ -12,88 +17,29 @@ C37 — SSH wire primitives and public-key blobs round-trip.
   harness/py2lean.py) and proved equal to the model's (`TwistedProps/C37/Gen.lean`); `gen_getNS_NS`, `gen_getMP_MP`
   state the wire round trips over the regenerated definitions themselves.
 
-Private-key serialisation formats (OpenSSH v1 / PEM, LSH, agent v3; passphrases) are produced
-by `cryptography` and are *not* modelled: that half of the property is checked by the
-differential oracle in `harness/corr/C37.py` only (partial — see MANIFEST note).
+
+Every key layout Twisted assembles ITSELF is modelled and its round trip proved, for every key
+(`WellFormed`: the public half is the one `cryptography` derives from the private half) and every value
+of the parameters (`cryptography`'s CRT numbers, the random salt / check bytes, the comment):
+* `private_blob_roundtrip`: `Key.privateBlob` / `_fromString_PRIVATE_BLOB` (RSA, DSA, ECDSA, Ed25519);
+* `agentv3_roundtrip`: `_toString_AGENTV3` / `_fromString_AGENTV3` (RSA, DSA);
+* `sexpy_roundtrip`, `lsh_public_roundtrip`, `lsh_private_roundtrip`: `sexpy.pack`/`parse` and the LSH
+  layouts, including the p/q exchange of RSA private keys;
+* `openssh_v1_roundtrip` (+ `_no_passphrase`, `_with_passphrase`): the openssh-key-v1 container with the
+  cipher and the bcrypt KDF as parameters under the contract `CipherOps.Lawful`;
+  `openssh_v1_wrong_check_refused_*`: two different check values are a `BadKeyError`;
+  `openssh_v1_padding`: the padding loop appends 1, 2, 3, … to the block size.
+"Same fingerprint": `Key.fingerprint()` is a hash of `Key.blob()`, a function of the key — an equal key has
+the same one (checked on the real code by the oracle).
+
+Outside the model (oracle only): the PEM/DER formats `cryptography` produces, and the base64 / PEM armour
+around the v1 container and the LSH public form (`base64.encodebytes` / `decodebytes`, Python stdlib).
 -/
 namespace TwistedProps.C37
-open Twisted.Py Twisted.Ssh.Wire Twisted.Ssh.KeyBlob
+open Twisted.Py Twisted.Ssh.Wire Twisted.Ssh.KeyBlob Twisted.Ssh.PrivKey Twisted.Ssh.Sexpy Twisted.Ssh.Lsh
+  Twisted.Ssh.OpenSSHv1
 
-/-! ### big-endian integers -/
-
-theorem beToNat_snoc (bs : Bytes) (b : UInt8) : beToNat (bs ++ [b]) = beToNat bs * 256 + b.toNat := by
-  simp [beToNat, List.foldl_append]
-
-theorem beToNat_zero_cons (bs : Bytes) : beToNat (0 :: bs) = beToNat bs := by
-  simp [beToNat]
-
-/-- `int.from_bytes(int_to_bytes(n), "big") = n` -/
-theorem beToNat_natToBE (n : Nat) : beToNat (natToBE n) = n := by
-  induction n using Nat.strongRecOn with
-  | _ n ih =>
-    rw [natToBE]
-    by_cases h : n = 0
-    · simp [h, beToNat]
-    · simp only [h, dite_false]
-      rw [beToNat_snoc, ih (n / 256) (by omega), UInt8.toNat_ofNat']
-      omega
-
-theorem u32be_length (n : Nat) : (u32be n).length = 4 := rfl
-
-/-- `struct.unpack(">L", struct.pack(">L", n)) = n` for `n < 2^32` -/
-theorem beToNat_u32be (n : Nat) (h : n < 4294967296) : beToNat (u32be n) = n := by
-  simp only [beToNat, u32be, List.foldl_cons, List.foldl_nil, UInt8.toNat_ofNat']
-  omega
-
-/-! ### NS / getNS -/
-
-theorem getNS1_NS (s r enc : Bytes) (h : NS s = .ok enc) : getNS1 (enc ++ r) = .ok (s, r) := by
-  unfold NS at h
-  split at h
-  · rename_i hlen
-    cases h
-    unfold getNS1
-    have h4 : ¬ (u32be s.length ++ s ++ r).length < 4 := by simp [u32be_length]
-    simp only [h4, if_false]
-    have ht : (u32be s.length ++ s ++ r).take 4 = u32be s.length := by
-      rw [List.append_assoc, List.take_append_of_le_length (by simp [u32be_length])]
-      simp [u32be]
-    have hd : (u32be s.length ++ s ++ r).drop 4 = s ++ r := by
-      rw [List.append_assoc, List.drop_append_of_le_length (by simp [u32be_length])]
-      simp [u32be]
-    rw [ht, hd, beToNat_u32be _ hlen]
-    simp
-  · cases h
-
-/-- encoding of a list of strings, as `b"".join(NS(x) for x in xs)` -/
-def NSs : List Bytes → Except Err Bytes
-  | [] => .ok []
-  | x :: xs => do
-      let a ← NS x
-      let b ← NSs xs
-      pure (a ++ b)
-
-/-- **getNS ∘ NS**: any number of strings followed by any rest decode to exactly those
-    strings and that rest. -/
-theorem getNS_list (xs : List Bytes) (r enc : Bytes) (h : NSs xs = .ok enc) :
-    getNS xs.length (enc ++ r) = .ok (xs, r) := by
-  induction xs generalizing enc with
-  | nil => cases h; simp [getNS]
-  | cons x xs ih =>
-    simp only [NSs] at h
-    cases hx : NS x with
-    | error e => simp [hx, bind, Except.bind] at h
-    | ok a =>
-      cases hxs : NSs xs with
-      | error e => simp [hx, hxs, bind, Except.bind] at h
-      | ok b =>
-        simp only [hx, hxs, bind, Except.bind, pure, Except.pure] at h
-        cases h
-        simp only [getNS, List.length_cons, List.append_assoc]
-        rw [getNS1_NS x (b ++ r) a hx]
-        simp only [bind, Except.bind]
-        rw [ih b hxs]
-        rfl
+/-! ### NS / getNS, MP / getMP (lemmas in `C37/Wire.lean`) -/
 
 theorem getNS_NS (s r enc : Bytes) (h : NS s = .ok enc) : getNS 1 (enc ++ r) = .ok ([s], r) := by
   have := getNS_list [s] r enc (by simp [NSs, h, bind, Except.bind, pure, Except.pure])
@@ -103,71 +49,9 @@ theorem getNS_NS (s r enc : Bytes) (h : NS s = .ok enc) : getNS 1 (enc ++ r) = .
 theorem NS_ok (s : Bytes) (h : s.length < 4294967296) : ∃ enc, NS s = .ok enc := by
   simp [NS, h]
 
-/-! ### MP / getMP -/
-
 theorem MP_negative (n : Int) (h : n < 0) : MP n = .error .assertion := by
   have : n ≠ 0 := by omega
   simp [MP, this, h]
-
-theorem getMP1_MP (n : Nat) (r enc : Bytes) (h : MP (n : Int) = .ok enc) :
-    getMP1 (enc ++ r) = .ok (n, r) := by
-  unfold MP at h
-  by_cases h0 : (n : Int) = 0
-  · simp only [h0, if_true] at h
-    cases h
-    have : n = 0 := by omega
-    subst this
-    simp [getMP1, beToNat]
-  · have hneg : ¬ (n : Int) < 0 := by omega
-    simp only [h0, hneg, if_false, Int.toNat_natCast] at h
-    generalize hbn : (if ((natToBE n).headD 0).toNat &&& 128 ≠ 0 then 0 :: natToBE n else natToBE n) = bn at h
-    have hval : beToNat bn = n := by
-      rw [← hbn]; split
-      · rw [beToNat_zero_cons, beToNat_natToBE]
-      · exact beToNat_natToBE n
-    split at h
-    · rename_i hlen
-      cases h
-      unfold getMP1
-      have h4 : ¬ (u32be bn.length ++ bn ++ r).length < 4 := by simp [u32be_length]
-      simp only [h4, if_false]
-      have ht : (u32be bn.length ++ bn ++ r).take 4 = u32be bn.length := by
-        rw [List.append_assoc, List.take_append_of_le_length (by simp [u32be_length])]
-        simp [u32be]
-      have hd : (u32be bn.length ++ bn ++ r).drop 4 = bn ++ r := by
-        rw [List.append_assoc, List.drop_append_of_le_length (by simp [u32be_length])]
-        simp [u32be]
-      rw [ht, hd, beToNat_u32be _ hlen]
-      simp [hval]
-    · cases h
-
-def MPs : List Nat → Except Err Bytes
-  | [] => .ok []
-  | x :: xs => do
-      let a ← MP (x : Int)
-      let b ← MPs xs
-      pure (a ++ b)
-
-/-- **getMP ∘ MP** for any number of non-negative integers and any trailing bytes. -/
-theorem getMP_list (xs : List Nat) (r enc : Bytes) (h : MPs xs = .ok enc) :
-    getMP xs.length (enc ++ r) = .ok (xs, r) := by
-  induction xs generalizing enc with
-  | nil => cases h; simp [getMP]
-  | cons x xs ih =>
-    simp only [MPs] at h
-    cases hx : MP (x : Int) with
-    | error e => simp [hx, bind, Except.bind] at h
-    | ok a =>
-      cases hxs : MPs xs with
-      | error e => simp [hx, hxs, bind, Except.bind] at h
-      | ok b =>
-        simp only [hx, hxs, bind, Except.bind, pure, Except.pure] at h
-        cases h
-        simp only [getMP, List.length_cons, List.append_assoc]
-        rw [getMP1_MP x (b ++ r) a hx]
-        simp only [bind, Except.bind]
-        rw [ih b hxs]
-        rfl
 
 theorem getMP_MP (n : Nat) (r enc : Bytes) (h : MP (n : Int) = .ok enc) :
     getMP 1 (enc ++ r) = .ok ([n], r) := by
@@ -350,7 +234,124 @@ theorem fromBlob_blob (k : PubKey) (enc : Bytes) (hk : ∀ c p, k = .ec c p → 
   | ec c p => exact fromBlob_blob_ec c p (hk c p rfl) enc h
   | ed25519 a => exact fromBlob_blob_ed25519 a enc h
 
+
+/-! ### private layouts Twisted assembles itself -/
+
+/-- **Private blobs round-trip** (`Key.privateBlob` → `_fromString_PRIVATE_BLOB`) for RSA, DSA, ECDSA and
+    Ed25519 keys, whatever CRT value `cryptography` supplied for the `u` slot and whatever follows. -/
+theorem private_blob_roundtrip (G : KeyGen) (k : PrivKey) (hk : WellFormed G k) (iqmp : Nat) (enc r : Bytes)
+    (h : privateBlob k iqmp = .ok enc) : fromPrivateBlob G (enc ++ r) = .ok k := by
+  simp [fromPrivateBlob, parsePrivateBlob_privateBlob G k iqmp hk enc r h, Except.map, build_fieldsOf G k hk]
+
+/-- **Agent v3 round-trips** for the key types it exists for (RSA, DSA: `toAgentV3` fails otherwise). -/
+theorem agentv3_roundtrip (G : KeyGen) (k : PrivKey) (u : Nat) (enc r : Bytes)
+    (h : toAgentV3 k u = .ok enc) : fromAgentV3 G (enc ++ r) = .ok k := by
+  have hk : build G (fieldsOf k) = k := by
+    cases k with
+    | rsa => rfl
+    | dsa => rfl
+    | ec c pt pv => simp [toAgentV3] at h
+    | ed25519 a s => simp [toAgentV3] at h
+  simp [fromAgentV3, parseAgentV3_toAgentV3 k u enc r h, Except.map, hk]
+
+/-- **sexpy**: `parse(pack([xs])) == xs` for every nested S-expression. -/
+theorem sexpy_roundtrip (xs : List Sexp) : parse (packList [.list xs]) = .ok xs := parse_pack xs
+
+/-- **LSH public keys round-trip** (RSA, DSA: `toLshPublic` is a `BadKeyError` otherwise). -/
+theorem lsh_public_roundtrip (k : PubKey) (enc : Bytes) (h : toLshPublic k = .ok enc) :
+    fromLshPublic enc = .ok k := by
+  cases k with
+  | rsa e n => exact fromLshPublic_rsa e n enc h
+  | dsa p q g y => exact fromLshPublic_dsa p q g y enc h
+  | ec c p => simp [toLshPublic] at h
+  | ed25519 a => simp [toLshPublic] at h
+
+/-- **LSH private keys round-trip** (RSA incl. the p/q exchange, DSA), whatever `iqmp` was written. -/
+theorem lsh_private_roundtrip (G : KeyGen) (k : PrivKey) (iqmp : Nat) (enc : Bytes)
+    (h : toLshPrivate k iqmp = .ok enc) : fromLshPrivate G enc = .ok k := by
+  cases k with
+  | rsa n e d p q => simp [fromLshPrivate, parseLshPrivate_rsa n e d p q iqmp enc h, Except.map, build]
+  | dsa p q g y x => simp [fromLshPrivate, parseLshPrivate_dsa p q g y x iqmp enc h, Except.map, build]
+  | ec c pt pv => simp [toLshPrivate] at h
+  | ed25519 a s => simp [toLshPrivate] at h
+
+/-- **OpenSSH v1 container round-trips**, with a passphrase (aes256-ctr + bcrypt, under the cipher
+    contract) and without, for every key type, comment, salt and check value. -/
+theorem openssh_v1_roundtrip (C : CipherOps) (hC : C.Lawful) (G : KeyGen) (k : PrivKey) (hk : WellFormed G k)
+    (iqmp : Nat) (comment passphrase salt check enc : Bytes) (hc : check.length = 4)
+    (h : toOpenSSHv1 C k iqmp comment passphrase salt check = .ok enc) :
+    fromOpenSSHv1 C G enc passphrase = .ok k := by
+  simp [fromOpenSSHv1, parseOpenSSHv1_toOpenSSHv1 C hC G k hk iqmp comment passphrase salt check enc hc h,
+    Except.map, build_fieldsOf G k hk]
+
+theorem openssh_v1_roundtrip_no_passphrase (C : CipherOps) (hC : C.Lawful) (G : KeyGen) (k : PrivKey)
+    (hk : WellFormed G k) (iqmp : Nat) (comment salt check enc : Bytes) (hc : check.length = 4)
+    (h : toOpenSSHv1 C k iqmp comment [] salt check = .ok enc) : fromOpenSSHv1 C G enc [] = .ok k :=
+  openssh_v1_roundtrip C hC G k hk iqmp comment [] salt check enc hc h
+
+theorem openssh_v1_roundtrip_with_passphrase (C : CipherOps) (hC : C.Lawful) (G : KeyGen) (k : PrivKey)
+    (hk : WellFormed G k) (iqmp : Nat) (comment passphrase salt check enc : Bytes) (_hp : passphrase ≠ [])
+    (hc : check.length = 4) (h : toOpenSSHv1 C k iqmp comment passphrase salt check = .ok enc) :
+    fromOpenSSHv1 C G enc passphrase = .ok k :=
+  openssh_v1_roundtrip C hC G k hk iqmp comment passphrase salt check enc hc h
+
+/-- **A wrong check pair is refused** (unencrypted container): `BadKeyError`, whatever follows. -/
+theorem openssh_v1_wrong_check_refused_plain (C : CipherOps) (G : KeyGen) (pub c1 c2 body enc pass : Bytes)
+    (h1 : c1.length = 4) (h2 : c2.length = 4) (hne : c1 ≠ c2)
+    (h : container sNone sNone [] pub (c1 ++ c2 ++ body) = .ok enc) :
+    fromOpenSSHv1 C G enc pass = .error .badKey := by
+  simp [fromOpenSSHv1, wrong_check_refused_plain C pub c1 c2 body enc pass h1 h2 hne h, Except.map]
+
+/-- … and in an encrypted container (written as `_toPrivateOpenSSH_v1` does, any rounds), under the
+    cipher contract. -/
+theorem openssh_v1_wrong_check_refused_encrypted (C : CipherOps) (hC : C.Lawful) (G : KeyGen)
+    (salt s pub c1 c2 body enc pass : Bytes) (rounds : Nat) (hr : rounds < 4294967296) (hs : NS salt = .ok s)
+    (hp : pass ≠ []) (h1 : c1.length = 4) (h2 : c2.length = 4) (hne : c1 ≠ c2)
+    (hlen : (c1 ++ c2 ++ body).length % 16 = 0)
+    (h : container sAes256 sBcrypt (s ++ u32be rounds) pub
+          (C.encrypt ((C.kdf pass salt (32 + 16) rounds).take 32) (((C.kdf pass salt (32 + 16) rounds).drop 32).take 16)
+            (c1 ++ c2 ++ body)) = .ok enc) :
+    fromOpenSSHv1 C G enc pass = .error .badKey := by
+  simp [fromOpenSSHv1, wrong_check_refused_encrypted C hC salt s pub c1 c2 body enc pass rounds hr hs hp h1 h2 hne hlen h,
+    Except.map]
+
+/-- **Padding**: the `while len % blockSize` loop appends exactly 1, 2, 3, … up to the next multiple of the
+    block size, for both block sizes the writer uses (8 without, 16 with a passphrase). -/
+theorem openssh_v1_padding (l : Bytes) :
+    padLoop 8 8 0 l = l ++ padding 8 l.length ∧ (padLoop 8 8 0 l).length % 8 = 0 ∧
+    padLoop 16 16 0 l = l ++ padding 16 l.length ∧ (padLoop 16 16 0 l).length % 16 = 0 := by
+  refine ⟨padLoop_closed8 l, ?_, padLoop_closed16 l, ?_⟩
+  · rw [padLoop_closed8, List.length_append, padding_length]; omega
+  · rw [padLoop_closed16, List.length_append, padding_length]; omega
+
 /-! ### Non-vacuity -/
+
+/-- the contract is satisfiable: a toy XOR-free "cipher" (identity) is lawful … -/
+def idCipher : CipherOps := ⟨fun _ _ n _ => List.replicate n 7, fun _ _ x => x, fun _ _ x => x⟩
+example : idCipher.Lawful := ⟨fun _ _ _ => rfl, fun _ _ _ => rfl⟩
+/-- … and so is one that really changes the bytes (add / subtract 1) -/
+def incCipher : CipherOps := ⟨fun _ _ n _ => List.replicate n 7, fun _ _ x => x.map (· + 1), fun _ _ x => x.map (· - 1)⟩
+example : incCipher.Lawful := ⟨fun _ _ x => by simp [incCipher, Function.comp_def], fun _ _ x => by simp [incCipher]⟩
+
+def okIs {ε α} [DecidableEq α] (x : Except ε α) (a : α) : Bool := match x with | .ok b => decide (b = a) | .error _ => false
+
+def toyGen : KeyGen := ⟨fun _ n => [4, UInt8.ofNat n], fun k => k.reverse⟩
+def toyRsa : PrivKey := .rsa 3233 17 413 61 53
+
+example : (match privateBlob toyRsa 38 with | .ok b => b.length == 11 + 6 + 5 + 6 + 5 + 5 + 5 | _ => false) = true := by
+  decide +kernel
+example : (match toAgentV3 toyRsa 38 with | .ok b => okIs (parseAgentV3 (b ++ [9])) (.rsa 3233 17 413 61 53) | _ => false) = true := by
+  decide +kernel
+example : (match toLshPrivate toyRsa 38 with
+    | .ok b => b.take 17 == [40, 49, 49, 58, 112, 114, 105, 118, 97, 116, 101, 45, 107, 101, 121, 40, 57] | _ => false) = true := by
+  decide +kernel
+example : padLoop 8 8 0 [9, 9, 9, 9, 9] = [9, 9, 9, 9, 9, 1, 2, 3] := by decide
+example : (match toOpenSSHv1 incCipher toyRsa 38 [104, 105] [112, 119] [1, 2, 3] [9, 8, 7, 6] with
+    | .ok b => okIs (fromOpenSSHv1 incCipher toyGen b [112, 119]) toyRsa && b.length == 152 | _ => false) = true := by
+  decide +kernel
+example : (match toOpenSSHv1 incCipher (.ed25519 ((List.replicate 32 5).reverse) (List.replicate 32 5)) 0 [] [] [] [0, 0, 0, 1] with
+    | .ok b => okIs (fromOpenSSHv1 incCipher toyGen b []) (.ed25519 (List.replicate 32 5) (List.replicate 32 5)) | _ => false) = true := by
+  decide +kernel
 example : (match MP 128 with | .ok b => b == [0, 0, 0, 2, 0, 128] | _ => false) = true := by decide +kernel
 example : (match getMP 1 [0, 0, 0, 2, 0, 128, 7] with | .ok r => r == ([128], [7]) | _ => false) = true := by decide +kernel
 example : (match NS [1, 2] with | .ok b => b == [0, 0, 0, 2, 1, 2] | _ => false) = true := by decide +kernel
